@@ -328,6 +328,7 @@ def run_c06(ctx):
     quick = ctx.tier == 'quick'
     model_check(ctx, 'MC_Demux', 'Demux_c06.cfg' if quick else 'Demux_c06_deep.cfg')
     model_check(ctx, 'MC_PacketPool', 'PacketPool.cfg', workers=4)      # the pool over a free packet alphabet: queues and returned groups are runs
+    apalache_inductive(ctx, 'PacketPoolShape', what='symbolic queues of up to 8 packets, any contents, isPSIComplete an arbitrary oracle')
     # (a) TLC: behaviours of the generator x channel x demuxer model with one dup/drop anywhere
     tl = demux_scenarios(ctx, ['Demux_gen_c06_quick.cfg' if quick else 'Demux_gen_c06_deep.cfg'], 'fg', sample=6000 if quick else 150000)
     tl = [s for s in tl if any('f' in p for p in s['pkts'])]
@@ -480,7 +481,8 @@ def run_c19(ctx):
 def run_c20(ctx):
     build_harness(ctx)
     quick = ctx.tier == 'quick'
-    model_check(ctx, 'MC_Demux', 'Demux_c02_psi.cfg')
+    # Rewind in the model: after any number of packets read and items taken, pool and data buffer replaced, program map kept
+    model_check(ctx, 'MC_Demux', 'Demux_c20_quick.cfg' if quick else 'Demux_c20.cfg', workers=8)
     clean = demux_scenarios(ctx, ['Demux_gen_psi_quick.cfg', 'Demux_gen_pes_quick.cfg'], 'rg', sample=250 if quick else 8000)
     rnd = harness_gen(ctx, 'demux', 60 if quick else 3000, ctx.seed, 3)
     scs = []
